@@ -592,6 +592,187 @@ fn gen_parse(r: &mut Rng, n: usize, truncation_sweeps: usize) -> Vec<String> {
     ops
 }
 
+
+// ------------------------------------------------------------------------------------------
+// hostile bytes against the real endpoints (C02: "any parsing or stream-reading entry point")
+// ------------------------------------------------------------------------------------------
+static PANICS: std::sync::atomic::AtomicU64 = std::sync::atomic::AtomicU64::new(0);
+
+fn counting_panic_hook() {
+    std::panic::set_hook(Box::new(|_| {
+        PANICS.fetch_add(1, std::sync::atomic::Ordering::SeqCst);
+    }));
+}
+
+struct NetWorld {
+    rt: tokio::runtime::Runtime,
+    tcp: std::net::SocketAddr,
+    atcp: std::net::SocketAddr,
+    ws: std::net::SocketAddr,
+}
+
+fn net_world() -> NetWorld {
+    let rt = tokio::runtime::Builder::new_multi_thread().worker_threads(3).enable_all().build().unwrap();
+    let mk = || repe::Router::new().with_json("/ping", |_v| Ok(serde_json::json!("pong")));
+    let l = std::net::TcpListener::bind("127.0.0.1:0").unwrap();
+    let tcp = l.local_addr().unwrap();
+    let srv = repe::Server::new(mk());
+    std::thread::spawn(move || {
+        let _ = srv.serve(l);
+    });
+    let r2 = mk();
+    let atcp = rt.block_on(async {
+        let l = tokio::net::TcpListener::bind("127.0.0.1:0").await.unwrap();
+        let a = l.local_addr().unwrap();
+        tokio::spawn(async move {
+            let _ = repe::AsyncServer::new(r2).serve(l).await;
+        });
+        a
+    });
+    let r3 = mk();
+    let ws = rt.block_on(async {
+        let l = tokio::net::TcpListener::bind("127.0.0.1:0").await.unwrap();
+        let a = l.local_addr().unwrap();
+        tokio::spawn(async move {
+            let _ = repe::websocket_server::WebSocketServer::new(r3).serve_listener(l, "/repe").await;
+        });
+        a
+    });
+    NetWorld { rt, tcp, atcp, ws }
+}
+
+/// Send `bs` to a real endpoint (or answer a real client's call with it) and report whether anything panicked
+/// and whether the endpoint still serves a well-formed request afterwards.
+fn exec_net(out: &mut Out, w: &NetWorld, line: &str) -> (String, bool) {
+    use futures_util::{SinkExt, StreamExt};
+    use std::io::{Read, Write};
+    use tokio_tungstenite::tungstenite::Message as WsMsg;
+    let ws_ = words(line);
+    let (idx, ep, bs) = (ws_[1], ws_[2], unhex(ws_[3]).unwrap());
+    let before = PANICS.load(std::sync::atomic::Ordering::SeqCst);
+    let ping = RawFrame::request(77, false, 1, b"/ping", 2, b"null").to_vec();
+    let t = std::time::Duration::from_millis(1500);
+    let mut alive = true;
+    match ep {
+        "tcp" | "atcp" => {
+            let addr = if ep == "tcp" { w.tcp } else { w.atcp };
+            if let Ok(mut s) = std::net::TcpStream::connect(addr) {
+                let _ = s.write_all(&bs);
+                let _ = s.shutdown(std::net::Shutdown::Write);
+                let _ = s.set_read_timeout(Some(t));
+                let mut sink = [0u8; 4096];
+                let t0 = std::time::Instant::now();
+                while t0.elapsed() < t {
+                    match s.read(&mut sink) { Ok(0) | Err(_) => break, Ok(_) => {} }
+                }
+            }
+            // the server must still answer a fresh connection
+            alive = false;
+            if let Ok(mut s) = std::net::TcpStream::connect(addr) {
+                let _ = s.set_read_timeout(Some(std::time::Duration::from_secs(10)));
+                if s.write_all(&ping).is_ok() {
+                    let mut buf = Vec::new();
+                    let mut tmp = [0u8; 4096];
+                    while RawFrame::parse_prefix(&buf).is_none() {
+                        match s.read(&mut tmp) { Ok(0) | Err(_) => break, Ok(n) => buf.extend_from_slice(&tmp[..n]) }
+                    }
+                    alive = RawFrame::parse_prefix(&buf).map(|(f, _)| f.h.id == 77 && f.h.ec == 0).unwrap_or(false);
+                }
+            }
+        }
+        "ws" => {
+            let url = format!("ws://{}/repe", w.ws);
+            alive = w.rt.block_on(async {
+                if let Ok((mut c, _)) = tokio_tungstenite::connect_async(&url).await {
+                    let _ = c.send(WsMsg::Binary(bs.clone())).await;
+                    let _ = tokio::time::timeout(t, c.next()).await;
+                }
+                let Ok((mut c, _)) = tokio_tungstenite::connect_async(&url).await else { return false };
+                if c.send(WsMsg::Binary(ping.clone())).await.is_err() { return false; }
+                match tokio::time::timeout(std::time::Duration::from_secs(10), c.next()).await {
+                    Ok(Some(Ok(WsMsg::Binary(b)))) => RawFrame::parse_prefix(&b).map(|(f, _)| f.h.id == 77 && f.h.ec == 0).unwrap_or(false),
+                    _ => false,
+                }
+            });
+        }
+        // a real client whose peer answers its call with hostile bytes: the call must return (Ok or Err)
+        "client" | "aclient" | "wsclient" => {
+            let returned = match ep {
+                "client" => {
+                    let l = std::net::TcpListener::bind("127.0.0.1:0").unwrap();
+                    let addr = l.local_addr().unwrap();
+                    let reply = bs.clone();
+                    std::thread::spawn(move || {
+                        if let Ok((mut s, _)) = l.accept() {
+                            let mut tmp = [0u8; 4096];
+                            let _ = s.read(&mut tmp);
+                            let _ = s.write_all(&reply);
+                            std::thread::sleep(std::time::Duration::from_millis(300));
+                        }
+                    });
+                    let c = repe::Client::connect(addr);
+                    match c { Ok(c) => { let _ = c.call_json_with_timeout("/x", &serde_json::json!(1), std::time::Duration::from_secs(5)); true } Err(_) => true }
+                }
+                "aclient" => w.rt.block_on(async {
+                    let l = tokio::net::TcpListener::bind("127.0.0.1:0").await.unwrap();
+                    let addr = l.local_addr().unwrap();
+                    let reply = bs.clone();
+                    tokio::spawn(async move {
+                        use tokio::io::{AsyncReadExt, AsyncWriteExt};
+                        if let Ok((mut s, _)) = l.accept().await {
+                            let mut tmp = [0u8; 4096];
+                            let _ = s.read(&mut tmp).await;
+                            let _ = s.write_all(&reply).await;
+                            tokio::time::sleep(std::time::Duration::from_millis(300)).await;
+                        }
+                    });
+                    match repe::AsyncClient::connect(addr).await {
+                        Ok(c) => tokio::time::timeout(std::time::Duration::from_secs(10), c.call_json_with_timeout("/x", &serde_json::json!(1), std::time::Duration::from_secs(5))).await.is_ok(),
+                        Err(_) => true,
+                    }
+                }),
+                _ => w.rt.block_on(async {
+                    let l = tokio::net::TcpListener::bind("127.0.0.1:0").await.unwrap();
+                    let addr = l.local_addr().unwrap();
+                    let reply = bs.clone();
+                    tokio::spawn(async move {
+                        if let Ok((s, _)) = l.accept().await {
+                            if let Ok(mut wsx) = tokio_tungstenite::accept_async(s).await {
+                                let _ = wsx.next().await;
+                                let _ = wsx.send(WsMsg::Binary(reply)).await;
+                                tokio::time::sleep(std::time::Duration::from_millis(300)).await;
+                            }
+                        }
+                    });
+                    match repe::websocket_client::WebSocketClient::connect(&format!("ws://{}/", addr)).await {
+                        Ok(c) => tokio::time::timeout(std::time::Duration::from_secs(10), c.call_json_with_timeout("/x", &serde_json::json!(1), std::time::Duration::from_secs(5))).await.is_ok(),
+                        Err(_) => true,
+                    }
+                }),
+            };
+            if !returned {
+                out.oracle_fail(&format!("parse.net.{}.call_hung", ep), "a call answered with hostile bytes did not return within its own timeout", &[line.to_string()]);
+            }
+        }
+        other => panic!("unknown endpoint {}", other),
+    }
+    let after = PANICS.load(std::sync::atomic::Ordering::SeqCst);
+    if after != before {
+        out.oracle_fail(&format!("parse.net.{}.panic", ep), &format!("{} panic(s) inside the endpoint while it handled hostile bytes", after - before), &[line.to_string()]);
+    }
+    if !alive {
+        out.oracle_fail(&format!("parse.net.{}.dead_after", ep), "the endpoint no longer answers a well-formed request after receiving hostile bytes", &[line.to_string()]);
+    }
+    out.count(&format!("parse.net.{}", ep));
+    (format!("{} survived", idx), false)
+}
+
+fn gen_net(r: &mut Rng, n: usize) -> Vec<String> {
+    let inputs = gen_parse_inputs(r, n);
+    let eps = ["tcp", "atcp", "ws", "client", "aclient", "wsclient"];
+    inputs.iter().enumerate().map(|(i, bs)| format!("net n{} {} {}", i, eps[i % eps.len()], hex(bs))).collect()
+}
+
 /// The repository's interop fixtures (frames produced by other REPE implementations): each must parse with
 /// every parser, and re-serialise to exactly the fixture bytes (one encoding).
 fn fixture_ops(out: &mut Out) -> Vec<String> {
@@ -621,7 +802,7 @@ fn fixture_ops(out: &mut Out) -> Vec<String> {
 fn main() {
     let args = Args::parse();
     let family = args.extra.first().cloned().unwrap_or_else(|| "wire".into());
-    quiet_panics();
+    if family == "parse" { counting_panic_hook(); } else { quiet_panics(); }
     let mut out = Out::new(&args.out);
     let rtm = rt();
     let mut rng = Rng::new(args.seed);
@@ -637,10 +818,19 @@ fn main() {
     } else {
         out.flush_each = true;
         out.rule = "byte strings: arbitrary (0..4 KiB), valid frames, valid+trailing, truncated, single-field mutations, the three length fields over the boundary lattice {0,small,|buf|-48±1,2^31,2^32,2^62,2^63,2^64-k} incl. wrapping sums, over-declaring headers; each through decode, 4 slice parsers and (when the declared sizes are <=16 MiB or >=2^62) 4 stream readers; plus streams cut at every byte position. Distinct by op line; non-trivial = the entry point returned Ok".into();
-        if args.thorough() { gen_parse(&mut rng, 40000, 60) } else { gen_parse(&mut rng, 2500, 8) }
+        let mut ops = if args.thorough() { gen_parse(&mut rng, 40000, 60) } else { gen_parse(&mut rng, 2500, 8) };
+        ops.extend(gen_net(&mut rng, if args.thorough() { 1800 } else { 240 }));
+        ops
     };
+    let mut world: Option<NetWorld> = None;
     for line in ops {
         out.begin(&line);
+        if line.starts_with("net ") {
+            let w = world.get_or_insert_with(net_world);
+            let (obs, nt) = exec_net(&mut out, w, &line);
+            out.case(&line, &obs, nt);
+            continue;
+        }
         let (obs, nt) = exec(&mut out, &line, &rtm);
         out.case(&line, &obs, nt);
     }
